@@ -152,7 +152,8 @@ def _int_proven(cmp_, names):
         for t in tests:
             for call in ast.walk(t):
                 if isinstance(call, ast.Call) and ast.unparse(call.func) == "isinstance" \
-                        and any(k in ast.unparse(call.args[1]) for k in ("INT_CLASSES", "int")):
+                        and any(k in ast.unparse(call.args[1])
+                                for k in ("INT_CLASSES", "int", "Integer")):
                     need.discard(ast.unparse(call.args[0]))
         p = par
     return not need
@@ -193,8 +194,10 @@ def r_route(c):
                 elif _empty_tuple(l) or _empty_tuple(r):
                     c.ok("R16-ROUTE", qn, inst, where,
                          "compared with () : a test of the rank, exact for any shape")
-                elif _int_proven(n, [ast.unparse(l), ast.unparse(r)]):
-                    c.ok("R16-ROUTE", qn, inst, where, "both operands proven integers")
+                elif _int_proven(n, [ast.unparse(x) for x, sx in ((l, sl), (r, sr)) if sx]):
+                    c.ok("R16-ROUTE", qn, inst, where,
+                         "the shape-typed operands are proven integers by a dominating "
+                         "isinstance test: == on an integer is exact")
                 elif used_rev[(qn, _alpha(inst))] < len(_REVIEWED_N.get((qn, _alpha(inst)), [])):
                     used_rev[(qn, _alpha(inst))] += 1
                     c.exempt("R16-ROUTE", qn, inst, where,
